@@ -115,6 +115,11 @@ impl<H: Hasher> BatchMerkleProof<H> {
         if indexes.is_empty() {
             return Err(MerkleTreeError::TooFewLeafIndexes);
         }
+        // each leaf must correspond to exactly one index; otherwise, superfluous leaves would be
+        // silently ignored and a proof carrying data that was never checked would be accepted
+        if indexes.len() != leaves.len() {
+            return Err(MerkleTreeError::InvalidProof);
+        }
 
         let mut buf = [H::Digest::default(); 2];
         let mut v = BTreeMap::new();
